@@ -9,5 +9,11 @@ import (
 func main() {
 	run := hlib.StartParallel("C07", 14)
 	grp.RunAll(run, "C07", []string{"C07:", "C12:group"}, 0)
-	run.Finish(grp.Rule)
+	// several real members sharing the coordinator: a third as many scenarios (each runs for up to 0.8 s)
+	nm := run.N / 3
+	if run.N == 0 {
+		nm = 70
+	}
+	grp.RunAllMulti(run, []string{"C07:", "C12:group"}, nm)
+	run.Finish(grp.Rule + " || " + grp.RuleMulti)
 }
